@@ -1,0 +1,312 @@
+//go:build verif
+
+package zygo
+
+import (
+	"reflect"
+	"sort"
+)
+
+// Read-only accessors for the C04 verification harness (build tag verif):
+// a structured dump of compiled bytecode, the shape of the data stack,
+// and a side-effect-light compile of one expression the way
+// EvalCallExpression compiles call arguments at run time.
+
+// VerifInstr is one instruction with exactly the operands that matter for
+// control flow and stack effect.
+type VerifInstr struct {
+	Op  string // opcode name; "Unknown" for an instruction type this file does not know
+	A   int    // first integer operand (jump offset, location, nargs, mark symbol number, loop id ...)
+	B   int    // second integer operand (scopesToPop, direction, ...)
+	C   int    // third integer operand (break/continue offset relative to the LoopStart)
+	Sym string // symbol name where the instruction has one
+	Fn  int    // index of a nested function in the dump table, or -1
+	Go  string // Go type name (for Unknown)
+}
+
+// VerifFunc is one compiled function.
+type VerifFunc struct {
+	Name     string
+	Nargs    int
+	Varargs  bool
+	NFormals int  // number of values the body takes from the data stack at entry
+	Typed    bool // inputTypes != nil
+	Kind     string
+	Code     []VerifInstr
+	Exprs    [][]Sexp // per pc: callee and argument expressions of a CallExpr (nil otherwise)
+}
+
+// VerifFuncKey identifies the code of a compiled function (copies made by
+// CreateClosure share it). 0 for user functions and empty code.
+func (f *SexpFunction) VerifFuncKey() uintptr {
+	if f == nil || f.user || len(f.fun) == 0 {
+		return 0
+	}
+	return reflect.ValueOf(f.fun).Pointer()
+}
+
+func (f *SexpFunction) VerifName() string { return f.name }
+func (f *SexpFunction) VerifIsUser() bool { return f.user }
+
+// VerifCurFunc returns the function whose code is executing.
+func (env *Zlisp) VerifCurFunc() *SexpFunction { return env.curfunc }
+
+// VerifDataShape appends the shape of the data stack, bottom first:
+// 0 value, -1 the list marker, -2 an empty slot, n>0 a stack mark with symbol number n.
+func (env *Zlisp) VerifDataShape(buf []int) []int {
+	for _, e := range env.datastack.elements {
+		d, ok := e.(DataStackElem)
+		if !ok {
+			buf = append(buf, -2)
+			continue
+		}
+		switch x := d.expr.(type) {
+		case *SexpStackmark:
+			buf = append(buf, x.sym.number)
+		case *SexpSentinel:
+			if x == SexpMarker {
+				buf = append(buf, -1)
+			} else {
+				buf = append(buf, 0)
+			}
+		default:
+			buf = append(buf, 0)
+		}
+	}
+	return buf
+}
+
+// VerifCompiledFunctions returns the compiled functions bound in the global
+// scope and the compiled macros, sorted by name.
+func (env *Zlisp) VerifCompiledFunctions() []*SexpFunction {
+	var out []*SexpFunction
+	if env.linearstack.Size() > 0 {
+		if scope, ok := env.linearstack.elements[0].(*Scope); ok {
+			for _, v := range scope.Map {
+				if f, ok := v.(*SexpFunction); ok && !f.user {
+					out = append(out, f)
+				}
+			}
+		}
+	}
+	for _, f := range env.macros {
+		if f != nil && !f.user {
+			out = append(out, f)
+		}
+	}
+	sort.SliceStable(out, func(i, j int) bool { return out[i].name < out[j].name })
+	return out
+}
+
+// VerifCompileExpr compiles one expression exactly as EvalCallExpression does
+// for a call argument (fresh generator, Return appended) without running it.
+// It returns nil when the expression compiles to no code or does not compile.
+func (env *Zlisp) VerifCompileExpr(expr Sexp) (f *SexpFunction, err error) {
+	defer func() {
+		if r := recover(); r != nil {
+			f = nil
+		}
+	}()
+	if expr == nil {
+		return nil, nil
+	}
+	if _, isSym := expr.(*SexpSymbol); isSym {
+		return nil, nil
+	}
+	gen := NewGenerator(env)
+	if err := gen.Generate(expr); err != nil {
+		return nil, err
+	}
+	if len(gen.instructions) == 0 {
+		return nil, nil
+	}
+	gen.AddInstruction(ReturnInstr{nil})
+	return env.MakeFunction("callExprEval", 0, false, ZlispFunction(gen.instructions), expr), nil
+}
+
+// VerifDumper builds a table of dumped functions, following nested functions.
+type VerifDumper struct {
+	Funcs []VerifFunc
+	index map[uintptr]int
+	queue []*SexpFunction
+	qfrom []int
+	starts []int
+}
+
+func NewVerifDumper() *VerifDumper {
+	return &VerifDumper{index: map[uintptr]int{}}
+}
+
+// Add dumps f (code from pc `from` on) and everything reachable through
+// function constants; it returns the table index (or -1 for user functions).
+func (d *VerifDumper) Add(f *SexpFunction, from int) int {
+	if f == nil || f.user {
+		return -1
+	}
+	idx := d.add(f, from)
+	for len(d.queue) > 0 {
+		g, gi := d.queue[0], d.qfrom[0]
+		d.queue, d.qfrom = d.queue[1:], d.qfrom[1:]
+		d.fill(g, gi)
+	}
+	return idx
+}
+
+func (d *VerifDumper) add(f *SexpFunction, from int) int {
+	key := f.VerifFuncKey()
+	if from > 0 || key == 0 {
+		// slices of main are never shared
+		key = 0
+	}
+	if key != 0 {
+		if i, ok := d.index[key]; ok {
+			return i
+		}
+	}
+	i := len(d.Funcs)
+	d.Funcs = append(d.Funcs, VerifFunc{Name: f.name, Nargs: f.nargs, Varargs: f.varargs,
+		NFormals: len(f.argSyms), Typed: f.inputTypes != nil})
+	if f.varargs && len(f.argSyms) == 0 {
+		d.Funcs[i].NFormals = f.nargs + 1
+	}
+	if key != 0 {
+		d.index[key] = i
+	}
+	d.queue = append(d.queue, f)
+	d.qfrom = append(d.qfrom, i)
+	d.Funcs[i].Kind = "fn"
+	d.starts = append(d.starts, from)
+	return i
+}
+
+func (d *VerifDumper) fill(f *SexpFunction, i int) {
+	from := d.starts[i]
+	code := f.fun
+	if from > len(code) {
+		from = len(code)
+	}
+	code = code[from:]
+	loopIds := map[*Loop]int{}
+	for _, in := range code {
+		if ls, ok := in.(LoopStartInstr); ok {
+			if _, seen := loopIds[ls.loop]; !seen {
+				loopIds[ls.loop] = len(loopIds) + 1
+			}
+		}
+	}
+	loopId := func(l *Loop) int {
+		if l == nil {
+			return 0
+		}
+		if id, ok := loopIds[l]; ok {
+			return id
+		}
+		return 0
+	}
+	out := make([]VerifInstr, len(code))
+	exprs := make([][]Sexp, len(code))
+	for pc, in := range code {
+		v := VerifInstr{Fn: -1}
+		switch x := in.(type) {
+		case JumpInstr:
+			v.Op, v.A = "Jump", x.addpc
+		case GotoInstr:
+			v.Op, v.A = "Goto", x.location-from
+		case BranchInstr:
+			v.Op, v.A = "Branch", x.location
+			if x.direction {
+				v.B = 1
+			}
+		case PushInstr:
+			v.Op = "Push"
+			switch c := x.expr.(type) {
+			case *SexpFunction:
+				if !c.user {
+					v.Fn = d.add(c, 0)
+				}
+			case *SexpSentinel:
+				if c == SexpMarker {
+					v.Op = "PushMarker"
+				}
+			case *SexpStackmark:
+				v.Op, v.A = "PushStackmark", c.sym.number
+			}
+		case PushLazyArgInstr:
+			v.Op = "PushLazyArg"
+		case PopInstr:
+			v.Op = "Pop"
+		case DupInstr:
+			v.Op = "Dup"
+		case EnvToStackInstr:
+			v.Op, v.Sym = "EnvToStack", x.sym.name
+		case PopStackPutEnvInstr:
+			v.Op, v.Sym = "PopStackPutEnv", x.sym.name
+		case UpdateInstr:
+			v.Op, v.Sym = "Update", x.sym.name
+		case CallInstr:
+			v.Op, v.Sym, v.A = "Call", x.sym.name, x.nargs
+		case CallExprInstr:
+			v.Op, v.A = "CallExpr", len(x.args)
+			if s, ok := x.callee.(*SexpSymbol); ok {
+				v.Sym = s.name
+			}
+			exprs[pc] = append([]Sexp{x.callee}, x.args...)
+		case DispatchInstr:
+			v.Op, v.A = "Dispatch", x.nargs
+		case ReturnInstr:
+			v.Op = "Return"
+			if x.err != nil {
+				v.Op = "ReturnErr"
+			}
+		case AddScopeInstr:
+			v.Op = "AddScope"
+		case AddFuncScopeInstr:
+			v.Op = "AddFuncScope"
+		case RemoveScopeInstr:
+			v.Op = "RemoveScope"
+		case ExplodeInstr:
+			v.Op = "Explode"
+		case SquashInstr:
+			v.Op = "Squash"
+		case BindlistInstr:
+			v.Op, v.A = "Bindlist", len(x.syms)
+		case VectorizeInstr:
+			v.Op = "Vectorize"
+		case HashizeInstr:
+			v.Op = "Hashize"
+		case LabelInstr:
+			v.Op = "Label"
+		case *BreakInstr:
+			v.Op, v.A, v.B, v.C = "Break", loopId(x.loop), x.scopesToPop, x.loop.breakOffset
+		case *ContinueInstr:
+			v.Op, v.A, v.B, v.C = "Continue", loopId(x.loop), x.scopesToPop, x.loop.continueOffset
+		case LoopStartInstr:
+			v.Op, v.A = "LoopStart", loopId(x.loop)
+		case PushStackmarkInstr:
+			v.Op, v.A, v.Sym = "PushStackmark", x.sym.number, x.sym.name
+		case PopUntilStackmarkInstr:
+			v.Op, v.A, v.Sym = "PopUntilStackmark", x.sym.number, x.sym.name
+		case ClearStackmarkInstr:
+			v.Op, v.A, v.Sym = "ClearStackmark", x.sym.number, x.sym.name
+		case DebugInstr:
+			v.Op = "Debug"
+		case CreateClosureInstr:
+			v.Op = "CreateClosure"
+			if x.sfun != nil && !x.sfun.user {
+				v.Fn = d.add(x.sfun, 0)
+			}
+		case AssignInstr:
+			v.Op = "Assign"
+		case PopScopeTransferToDataStackInstr:
+			v.Op = "PopScopeTransferToDataStack"
+		case PrepareCallInstr:
+			v.Op, v.Sym, v.A = "PrepareCall", x.sym.name, x.nargs
+		default:
+			v.Op = "Unknown"
+			v.Go = reflect.TypeOf(in).String()
+		}
+		out[pc] = v
+	}
+	d.Funcs[i].Code = out
+	d.Funcs[i].Exprs = exprs
+}
